@@ -8,8 +8,10 @@ CASE_TIMEOUT = 60.0
 FILLER = {"secp-mul-rand"}
 ASSUMPTIONS = [
     "curve_facts secp256k1 (chord-and-tangent addition on secp256k1 is a commutative group, n*G = infinity, k*G != infinity for "
-    "0<k<n, Fermat inverses mod n) is an EXPLICIT PREMISE of the generic theorems; it is proved outright (kernel computation over "
-    "all points and triples) for y^2=x^3+7 over F_43, F_79, F_67",
+    "0<k<n, Fermat inverses mod n) is an EXPLICIT PREMISE of the generic theorems; it is PROVED for secp256k1 itself in coq/GL + "
+    "Props/Secp256k1.v (generic group law incl. associativity over every prime field, primality of p and n by Pocklington "
+    "certificates, n*G = infinity by a checked slope certificate; closed under the global context) and by kernel computation over "
+    "all points and triples for y^2=x^3+7 over F_43, F_79, F_67",
     "modelled, not verified: src/bits/ecmath.py (field helpers, point_add, point_negate, point_scalar_mul, point_is_on_curve), "
     "utils.privkey_int / compute_point, keys.key",
     "secrets.randbelow is replaced by a scripted source inside the worker",
